@@ -1,0 +1,18 @@
+//go:build verif
+
+package caddyfile
+
+// Verification hooks (build tag "verif" only, add-only): they expose two unexported pure
+// helpers of the Caddyfile parser to the correspondence harness in /verif (property C16).
+// Nothing here is compiled into a normal build.
+
+// VerifReplaceEnvVars runs replaceEnvVars on a private copy of input (the function
+// mutates the underlying array of its argument).
+func VerifReplaceEnvVars(input []byte) []byte {
+	return replaceEnvVars(append(make([]byte, 0, len(input)), input...))
+}
+
+// VerifParseVariadic runs parseVariadic on a token with the given text.
+func VerifParseVariadic(text string, argCount int) (bool, int, int) {
+	return parseVariadic(Token{Text: text, File: "Caddyfile", Line: 1}, argCount)
+}
